@@ -226,6 +226,10 @@ func indexIngest(repo Repo, index *types.Index, conf config.Config, locked bool)
 				referrerResponse[refSubj.String()] = newDesc
 				mod = true
 			}
+			// an index that does not list a single referrer is not a fallback index, the tag is left alone
+			if !valid && len(refResp) == 0 {
+				continue
+			}
 			// if the response cannot be quickly converted, save for later
 			if !valid {
 				for refSubj := range refResp {
